@@ -66,7 +66,7 @@ class C03(core.Prop):
 
     def gen_case(self, rng, i):
         return {'examples': rx.gen_examples(rng), 'opts': rx.gen_opts(rng), 'size': rx.gen_size(rng),
-                'seed': rng.choice([None, None, 1, 7, 12345]), 'form': rng.choice(['list', 'list', 'dict', 'series'])}
+                'seed': rng.choice([None, None, 0, 1, 7, 12345]), 'form': rng.choice(['list', 'list', 'dict', 'series'])}
 
     # correspondence: the Lean pipeline against rexpy.extract, for cases where no sampling happens
     def _nosampling(self, case):
